@@ -33,7 +33,13 @@ def generate(rng, tier, n):
     while len(cases) < n:
         c = rng.random()
         live = False
-        if c < 0.12:
+        early = False
+        if c < 0.08 or len(cases) == 1:
+            # most of the chance mass ends the game at once: the sampled bound of such an iteration is exactly zero,
+            # which must not be mistaken for "below the threshold 0" (the documented fixed-budget setting)
+            t, st = early_exit_tree(rng)
+            early = True
+        elif c < 0.2:
             # a matrix game with 3-4 actions per player and (almost surely) a properly mixed equilibrium, solved with
             # the *production* samplers (no pinned draws): the only place where the crate's own opponent-action
             # sampler decides whether the solver converges
@@ -53,13 +59,13 @@ def generate(rng, tier, n):
         multi, _ = infosets_of(t)
         if len(multi[1]) + len(multi[2]) < 2:
             continue
-        method = "external" if live else rng.choice(["sampled", "external"])
+        method = "external" if live else rng.choice(["sampled", "external"] + (["sampled"] * 3 if early else []))
         preset = rng.choice(PRESETS)
         threads = rng.choice([1, 2, 2, 4])
         cb = CaseBuilder(cid, t, {"stats": st, "method": method, "preset": preset, "threads": threads})
         cb.meta["stat_runs"] = []
         cb.meta["live"] = live
-        for T in (TS + [40000] if live else TS):
+        for T in (TS + [40000] if live or early else TS):
             s = cb.solve(method, T, 0.0, threads, preset, None if live else {"weighted_seed": seed + cid * 7 + T}, kind="solve_long")
             cb.info(s, kind="info_long")
             cb.meta["stat_runs"].append((T, len(cb.ops) - 2))
@@ -71,6 +77,17 @@ def generate(rng, tier, n):
         cases.append(cb)
         cid += 1
     return cases
+
+
+def early_exit_tree(rng):
+    """chance: weight 3 -> the game is over (payoff 0), weight 1 -> biased matching pennies (the uniform profile has a
+    large regret there)"""
+    from ..gen import tree_stats
+    a, b, c_, d = rng.choice([(4.0, -2.0, -1.0, 1.0), (3.0, -1.0, -2.0, 1.5), (5.0, -3.0, -1.0, 2.0)])
+    sub = {"p": 1, "i": 1, "a": [[1, {"p": 2, "i": 2, "a": [[1, {"t": f2b(a)}], [2, {"t": f2b(b)}]]}],
+                                 [2, {"p": 2, "i": 2, "a": [[1, {"t": f2b(c_)}], [2, {"t": f2b(d)}]]}]]}
+    t = {"c": None, "o": [[f2b(rng.choice([3.0, 5.0])), {"t": f2b(0.0)}], [f2b(1.0), sub]]}
+    return t, tree_stats(t)
 
 
 def matrix_game(rng, k):
